@@ -425,6 +425,29 @@ fn run_trie(_ctx: &Ctx, case: &Value, tag: usize, rep: &mut Report, mb: &mut Mod
             }
         }
     }
+    // the byte length used for every token id is that of its raw decoding (special and empty entries decode to the
+    // spelling \xFF[id]; theorem tokenLen_eq_decodeRaw_length); ids beyond this small vocabulary are covered by a
+    // padded trie so that every digit-count boundary of the id occurs
+    {
+        let check = |trie: &TokTrie, n: usize, rep: &mut Report| {
+            for t in 0..n as u32 {
+                let raw = trie.decode_raw(&[t]);
+                if trie.token_len(t) != raw.len() {
+                    rep.fail("oracle", "c16:token-len", format!("token_len({t}) = {} but decode_raw gives {} bytes", trie.token_len(t), raw.len()), json!({"case": case, "token": t}));
+                    return;
+                }
+            }
+        };
+        check(&trie, vocab, rep);
+        if tag % 8 == 1 {
+            let mut big = words.clone();
+            while big.len() < 1205 { let mut w = vec![0xffu8]; w.extend_from_slice(format!("<|p{}|>", big.len()).as_bytes()); big.push(if big.len() % 7 == 0 { vec![] } else { w }); }
+            let info = TokRxInfo::new(big.len() as u32, big.len() as u32 - 1);
+            let t2 = TokTrie::from(&info, &big);
+            check(&t2, big.len(), rep);
+            rep.count("trie.padded-1205");
+        }
+    }
     // alphabet for DFA classes
     let mut alphabet: Vec<u8> = words.iter().flatten().copied().collect();
     alphabet.sort();
